@@ -168,10 +168,19 @@ PROPERTY OnlyRefines
 """
 
 
-def refinement_model(ctx, lay_spec, budget, ordered, anyorder):
+def refinement_model(ctx, lay_spec, budget, ordered, anyorder, widths=None):
     Nt, Nx, glue = lay_spec
     maxl = budget + 3
-    lay = ml.Layout.uniform(Nt, Nx, glue, maxl)
+    if widths:
+        # root panels of different widths (sides 1 and 2 of the L-shape, custom grids): the model's states are the same,
+        # the real elements' widths are no longer a function of their levels
+        from fractions import Fraction as F_
+        xg = [F_(0)]
+        for w in widths:
+            xg.append(xg[-1] + F_(w))
+        lay = ml.Layout([F_(j) for j in range(Nt + 1)], xg, glue, maxl)
+    else:
+        lay = ml.Layout.uniform(Nt, Nx, glue, maxl)
     tag = "%s-b%d-%s" % (lay.key(), budget, "ord" if ordered else "view")
     dot = os.path.join(tlc._scratch(), "graph")
     cfg = CFG_REF % {"Nt": Nt, "Nx": Nx, "Glue": "TRUE" if glue else "FALSE", "MaxL": maxl, "Budget": budget,
@@ -236,8 +245,20 @@ def random_traces(ctx, tier, seed):
     total, traces, samples = 0, 0, []
     stats = []
     knife = 0
-    for (Nt, Nx, glue) in lays:
-        lay = ml.Layout.uniform(Nt, Nx, glue, 12)
+    from fractions import Fraction as F_
+    variants = [(spec, False) for spec in lays] + [(lays[0], True), (lays[-1], True)]
+    for (Nt, Nx, glue), nonuniform in variants:
+        if nonuniform:
+            # root panels and slabs of different lengths (an L-shape has sides 1 and 2; custom grids are legal): width is
+            # then not a function of the level
+            tg, xg = [F_(0)], [F_(0)]
+            for _ in range(Nt):
+                tg.append(tg[-1] + F_(rng.choice([1, 2, 3]), rng.choice([1, 2, 4])))
+            for _ in range(max(Nx, 3)):
+                xg.append(xg[-1] + F_(rng.choice([1, 2, 5]), rng.choice([1, 2])))
+            lay = ml.Layout(tg, xg, glue, 12)
+        else:
+            lay = ml.Layout.uniform(Nt, Nx, glue, 12)
         events, starts = [], []
         for h in range(n_hist):
             starts.append(len(events))
@@ -359,6 +380,10 @@ def run(prop, tier, seed):
         st = refinement_model(ctx, lay_spec, bq if quick else bt, False, False)
         ref.append(st)
         ctx.log("refine %s" % st)
+    for lay_spec, b, widths in ([((1, 2, False), 2, (1, 3)), ((1, 3, True), 1, (2, 1, 5))] if quick else [((1, 2, False), 3, (1, 3)), ((1, 3, True), 2, (2, 1, 5)), ((1, 2, False), 3, (2, 1))]):
+        st = refinement_model(ctx, lay_spec, b, False, False, widths=widths)
+        ref.append(st)
+        ctx.log("refine-nonuniform-widths %s" % st)
     for lay_spec, b in ([((1, 2, False), 2), ((1, 1, True), 2)] if quick else [((1, 2, False), 3), ((1, 1, True), 3), ((1, 3, True), 2)]):
         st = refinement_model(ctx, lay_spec, b, True, True)
         ref.append(st)
@@ -369,7 +394,8 @@ def run(prop, tier, seed):
     from .. import loop_lib
     drv = loop_lib.driver_block(ctx, [("Dirichlet", "UnitSquare", 0, "isotropic", "sobolev", 0, 2 if quick else 3),
                                       ("MildSingular", "Circle", 0, "anisotropic", "sobolev", 0, 3 if quick else 4),
-                                      ("Dirichlet", "LShape", 1, "anisotropic", "sobolev-l2", 0, 2 if quick else 3)],
+                                      ("Dirichlet", "LShape", 1, "anisotropic", "sobolev-l2", 0, 2 if quick else 3),
+                                      ("MildSingular", "LShape", 0, "isotropic", "sobolev", 0, 2 if quick else 3)],
                                 {"dorfler"}, C06_CLAUSES)
     ctx.log("driver %s" % drv)
     st_self = selftest(ctx)
